@@ -85,9 +85,105 @@ func collectChanNames(f *ast.File) {
 	})
 }
 
+// localKinds: for the function declaration being rewritten, what its own parameters and local
+// declarations say about a name: 1 = channel, 2 = certainly not a channel (declared with another type or
+// initialised from a literal / make of a slice or map). A plain identifier is looked up here first, so that
+// e.g. a slice parameter `jobs` is not mistaken for a channel field `jobs` of another file.
+var localKinds = map[string]int{}
+
+func collectLocalKinds(fd *ast.FuncDecl) {
+	localKinds = map[string]int{}
+	set := func(name string, kind int) {
+		if name == "_" || name == "" {
+			return
+		}
+		if old, ok := localKinds[name]; ok && old != kind {
+			localKinds[name] = 0 // declared both ways in nested scopes: undecided, fall back to the global table
+			return
+		}
+		localKinds[name] = kind
+	}
+	kindOfType := func(t ast.Expr) int {
+		if t == nil {
+			return 0
+		}
+		if _, ok := t.(*ast.ChanType); ok {
+			return 1
+		}
+		return 2
+	}
+	kindOfValue := func(e ast.Expr) int {
+		switch v := e.(type) {
+		case *ast.CompositeLit, *ast.BasicLit, *ast.FuncLit:
+			return 2
+		case *ast.UnaryExpr:
+			if v.Op == token.AND {
+				return 2
+			}
+		case *ast.CallExpr:
+			if id, ok := v.Fun.(*ast.Ident); ok && (id.Name == "make" || id.Name == "new") && len(v.Args) > 0 {
+				return kindOfType(v.Args[0])
+			}
+			if id, ok := v.Fun.(*ast.Ident); ok && (id.Name == "len" || id.Name == "cap" || id.Name == "append") {
+				return 2
+			}
+		}
+		return 0
+	}
+	fl := func(l *ast.FieldList) {
+		if l == nil {
+			return
+		}
+		for _, f := range l.List {
+			for _, nm := range f.Names {
+				set(nm.Name, kindOfType(f.Type))
+			}
+		}
+	}
+	fl(fd.Recv)
+	fl(fd.Type.Params)
+	fl(fd.Type.Results)
+	if fd.Body == nil {
+		return
+	}
+	ast.Inspect(fd.Body, func(n ast.Node) bool {
+		switch x := n.(type) {
+		case *ast.FuncLit:
+			fl(x.Type.Params)
+			fl(x.Type.Results)
+		case *ast.ValueSpec:
+			for i, nm := range x.Names {
+				k := kindOfType(x.Type)
+				if k == 0 && i < len(x.Values) && len(x.Values) == len(x.Names) {
+					k = kindOfValue(x.Values[i])
+				}
+				if k != 0 {
+					set(nm.Name, k)
+				}
+			}
+		case *ast.AssignStmt:
+			if x.Tok == token.DEFINE && len(x.Lhs) == len(x.Rhs) {
+				for i, l := range x.Lhs {
+					if id, ok := l.(*ast.Ident); ok {
+						if k := kindOfValue(x.Rhs[i]); k != 0 {
+							set(id.Name, k)
+						}
+					}
+				}
+			}
+		case *ast.RangeStmt:
+			// iteration variables of a two-variable range: index is an int/key, never decided here
+		}
+		return true
+	})
+}
+
 func isChanExpr(e ast.Expr) bool {
 	switch x := e.(type) {
 	case *ast.Ident:
+		if k := localKinds[x.Name]; k != 0 {
+			return k == 1
+		}
 		return chanNames[x.Name]
 	case *ast.SelectorExpr:
 		return chanNames[x.Sel.Name]
@@ -346,7 +442,8 @@ func (r *rewriter) stmt(s ast.Stmt) []ast.Stmt {
 		}
 		r.block(x.Body)
 	case *ast.RangeStmt:
-		if isChanExpr(x.X) {
+		// a range with two iteration variables is never a channel range
+		if !(x.Key != nil && x.Value != nil) && isChanExpr(x.X) {
 			// for v := range ch  ==>  for { v, ok := ch.Recv2(); if !ok { break }; ... }
 			x.X = r.expr(x.X)
 			r.block(x.Body)
@@ -581,6 +678,7 @@ func instrumentFile(path, rel string, httpServer, funcLevel bool) ([]byte, error
 	for _, d := range f.Decls {
 		switch x := d.(type) {
 		case *ast.FuncDecl:
+			collectLocalKinds(x)
 			r.fields(x.Recv)
 			x.Type = r.expr(x.Type).(*ast.FuncType)
 			r.inInit = x.Recv == nil && x.Name.Name == "init"
